@@ -24,13 +24,19 @@ type c08 struct {
 	*Base
 	tier string
 	rts  map[uint32]bool // recovery time stamps seen in this history
+	last [NPeers]*c08Last // the most recent request of each peer and what answered it
+}
+
+type c08Last struct {
+	req []byte
+	rsp *smf.Msg // nil: it was not answered
 }
 
 var c08Est = []string{"normal(PDR1 with UE IP)", "PDR1 with + PDR2 without UE IP", "no PDR", "without Node ID", "without CP F-SEID", "for unknown node id", "PDR1 + PDR2 with UE IPs, PDR2's PDI encoded before its PDR ID"}
 
 func c08Spec(tier, scenario string) seqx.Spec {
 	depth := 7
-	dl := 110 * time.Second
+	dl := 170 * time.Second
 	if tier == "thorough" {
 		depth = 9
 		dl = 30 * time.Minute
@@ -77,7 +83,55 @@ func (c *c08) Key() string {
 	return c.W.V.Dump(pfcp.DumpOpt{NoTrans: true, Label: c.Label, NoSeq: true}) + "DP " + c.W.D.DumpL(c.Label) + fmt.Sprintf(" rts=%d", len(c.rts))
 }
 
-func (c *c08) state() string { return c.W.V.Dump(pfcp.DumpOpt{NoTrans: true}) + c.W.D.Dump() }
+// state as judged by the "no trace" oracles: the fields the properties speak about, not fields a change may
+// have added for its own purposes (those still enter the state KEY, where they can only widen the search)
+// resendOthers: every OTHER peer retransmits its most recent request (something has been answered in between):
+// the answer must again be the one that belongs to that request, go to that peer only, and have no effect.
+func (c *c08) resendOthers(j *Judge, p int) {
+	for q := 0; q < 3; q++ {
+		l := c.last[q]
+		if q == p || l == nil || c.W.Dead {
+			continue
+		}
+		s0 := c.state()
+		o := c.W.Send(q, l.req)
+		if j.Crashed(c.W, o) {
+			return
+		}
+		for r := range o.Out {
+			if r != q && len(o.Out[r]) > 0 {
+				j.Fail("response-to-wrong-address:retransmission", "a retransmitted request from %c made a datagram go to %c", 'A'+q, 'A'+r)
+			}
+		}
+		switch {
+		case l.rsp == nil && len(o.Out[q]) != 0:
+			j.Fail("retransmission-answer-differs", "the request had not been answered, its retransmission got %v", o.Out[q])
+		case l.rsp != nil && len(o.Out[q]) != 1:
+			j.Fail("retransmission-answer-differs", "the request had been answered with %v, its retransmission got %d datagram(s)", l.rsp, len(o.Out[q]))
+		case l.rsp != nil:
+			if m := o.Out[q][0]; m.Type != l.rsp.Type || m.Seq != l.rsp.Seq || m.SEID != l.rsp.SEID {
+				j.Fail("retransmission-answer-differs", "the request of %c had been answered with %v; its retransmission is answered with %v (another request's response?)", 'A'+q, l.rsp, m)
+			}
+		}
+		if c.state() != s0 || len(o.Calls) != 0 {
+			j.Fail("retransmission-has-effect", "a retransmitted request changed state or reached the data plane: calls %v", o.Calls)
+		}
+		j.Tag("retransmission-after-other-traffic")
+	}
+}
+
+// send delivers a request and remembers it together with its answer (for the Resend event).
+func (c *c08) send(p int, b []byte) StepObs {
+	o := c.W.Send(p, b)
+	l := &c08Last{req: b}
+	if len(o.Out[p]) > 0 {
+		l.rsp = o.Out[p][0]
+	}
+	c.last[p] = l
+	return o
+}
+
+func (c *c08) state() string { return c.W.V.Dump(pfcp.DumpOpt{NoTrans: true, NoExtra: true}) + c.W.D.Dump() }
 
 // correlate: generic checks on the datagrams of one step.
 func (c *c08) correlate(j *Judge, what string, o StepObs, p int, seq uint32, wantType uint8) *smf.Msg {
@@ -125,7 +179,7 @@ func (c *c08) Apply(e seqx.Event) seqx.StepResult {
 	case "HB":
 		p := int(e.A[0])
 		seq := c.NextSeq(p)
-		o = c.W.Send(p, smf.Heartbeat(seq))
+		o = c.send(p, smf.Heartbeat(seq))
 		if j.Crashed(c.W, o) {
 			break
 		}
@@ -140,7 +194,7 @@ func (c *c08) Apply(e seqx.Event) seqx.StepResult {
 		if withID {
 			id = c.W.PeerIP(p)
 		}
-		o = c.W.Send(p, smf.Assoc(seq, id))
+		o = c.send(p, smf.Assoc(seq, id))
 		if j.Crashed(c.W, o) {
 			break
 		}
@@ -193,7 +247,7 @@ func (c *c08) Apply(e seqx.Event) seqx.StepResult {
 				cp = 0x20
 			}
 		}
-		o = c.W.Send(p, smf.Est(seq, node, withF, cp, c.W.PeerIP(p), ops...))
+		o = c.send(p, smf.Est(seq, node, withF, cp, c.W.PeerIP(p), ops...))
 		if j.Crashed(c.W, o) {
 			break
 		}
@@ -265,13 +319,13 @@ func (c *c08) Apply(e seqx.Event) seqx.StepResult {
 		isMod := strings.HasPrefix(e.Op, "Mod")
 		var m *smf.Msg
 		if isMod {
-			o = c.W.Send(p, smf.Mod(seq, seid, "", op('C', 'F', 2)))
+			o = c.send(p, smf.Mod(seq, seid, "", op('C', 'F', 2)))
 			if j.Crashed(c.W, o) {
 				break
 			}
 			m = c.correlate(j, "Mod", o, p, seq, smf.MModRsp)
 		} else {
-			o = c.W.Send(p, smf.Del(seq, seid))
+			o = c.send(p, smf.Del(seq, seid))
 			if j.Crashed(c.W, o) {
 				break
 			}
@@ -296,6 +350,11 @@ func (c *c08) Apply(e seqx.Event) seqx.StepResult {
 			}
 			c.noTrace(j, what+"(non-existent)", s0, o)
 		}
+	}
+	if len(j.Viols) == 0 && len(e.A) > 0 && e.Op != "Mod" && e.Op != "Del" && e.Op != "ModRaw" && e.Op != "DelRaw" {
+		c.resendOthers(j, int(e.A[0]))
+	} else if len(j.Viols) == 0 {
+		c.resendOthers(j, -1) // session-addressed events: the acting peer is the session's; every peer's last request is re-sent
 	}
 	return seqx.StepResult{Obs: e.String() + " => " + o.StringL(c.Label), Viols: j.Viols, Tags: j.Tags}
 }
